@@ -399,7 +399,7 @@ def run_mc(chk, name, maxlevel, dev=False, expect_error=False, dump=None, view=T
         if res["error_kind"]:
             tlc.machinery_failure("design model COV/%s violates %s\n%s" % (name, res["error"], res["output"][-3000:]))
     else:
-        if res["error_kind"] != "action_property":
+        if res["error_kind"] not in ("invariant", "action_property", "property", "temporal", "assert"):
             tlc.machinery_failure("sanity: COV/%s with Dev_RenewKeepsOldParams should violate a property, got %r\n%s" % (
                 name, res["error"], res["output"][-2000:]))
         chk.extra.setdefault("sanity", []).append(
